@@ -9,7 +9,7 @@ RULE = (
     "seeded Tasklang programs dense in with-blocks (AsyncContext subclasses, scoped-value and attribute overrides; "
     "nesting <= 4; blocks spanning 0-5 yields; several concurrently pending tasks; blocks left normally, by exceptions "
     "thrown into or raised inside them, and by early return/result()); profile A adds sync re-entry and shared tasks, "
-    "profile N (yield-only, no shared tasks) adds NonAsyncContext blocks. All get_priority() policies, both builds. "
+    "profile N (yield-only, no shared tasks) adds NonAsyncContext blocks; in one program of six some contexts' own resume()/pause() raise on the 2nd/3rd call (the oracles then apply to all OTHER contexts, without the reference), half of them from a structured family: a synchronously called subtree whose context fails on re-activation after a flush, handled by the caller, which then opens contexts of its own and blocks in them. All get_priority() policies, both builds. "
     "In-run oracles: per context strict resume/pause alternation from entry (resumed) to exit (paused); at every task "
     "step and every flush each live context must be ACTIVE if its owner runs (also inside a sync call) or a running task "
     "is reachable only through its owner, and PAUSED if its owner awaits no running task (every context at a top-level "
@@ -19,7 +19,7 @@ RULE = (
 )
 ASSUMPTIONS = [
     "contexts of tasks awaited by several parents are unconstrained while a shared descendant runs (the statement says 'only it')",
-    "failing pause()/resume() callbacks are exercised under C08, not here",
+    "contexts whose own pause()/resume() raise are unconstrained (C08 covers what the scheduler does then); every other context in such a run is still checked",
 ]
 UNIT_TIMEOUT = {"quick": 150, "thorough": 2400}
 
@@ -42,7 +42,81 @@ PROFILE_N = gen.profile(
     **dict(COMMON, w_stmt=dict(with_=5.0, raise_=0.3, try_=1.5, ret=0.4, orphan=0, read=0.4, sync=0))
 )
 MON_A = ("ctxactive", "refeq", "restore", "nesting")
+# profile F: some contexts fail in resume()/pause(); no reference then - the in-run oracles on all OTHER contexts remain
+MON_F = ("ctxactive", "nesting")
 HOWS = ["call", "value", "yielded", "yielded_value"]
+
+
+def lease_program(rnd):
+    """A structured family the random generator rarely hits: a task calls a subtree synchronously in which a
+    context fails when it is re-activated after a flush (a lease that expired while its task was suspended),
+    handles the failure, then opens ordinary contexts of its own and is suspended inside them - next to
+    sibling tasks with contexts of their own."""
+    site = [0]
+
+    def st(prefix):
+        site[0] += 1
+        return "%s%d" % (prefix, site[0])
+
+    def item():
+        site[0] += 1
+        return ["leaf", ["item", rnd.randrange(2), "k%d" % site[0]]]
+
+    def yields(n):
+        return [["yield", item()] for _ in range(n)]
+
+    def tracked(name, n):
+        body = yields(n)
+        if rnd.random() < 0.3:
+            body = [["with", ["actx", name + "in"], body]]
+        return [["with", ["actx", name], body]]
+
+    nodes = [{"style": "asynq", "ret": "return", "body": []} for _ in range(5)]
+    # 3: the task holding the lease
+    lease_body = [["with", ["actx", "lease"], yields(rnd.choice([1, 2, 2, 3]))]]
+    if rnd.random() < 0.4:
+        lease_body = [["with", ["actx", "outer3"], lease_body]]
+    if rnd.random() < 0.3:
+        lease_body = yields(1) + lease_body
+    nodes[3]["body"] = lease_body
+    # 2: the synchronously called function; awaits 3 directly or next to other work
+    if rnd.random() < 0.5:
+        nodes[2]["body"] = [["yield", ["leaf", ["call", st("c"), 3]]]]
+    else:
+        nodes[2]["body"] = [["with", ["actx", "mid"], [["yield", ["list", [["leaf", ["call", st("c"), 3]], item()]]]]]]
+    # 1: the caller
+    body = []
+    if rnd.random() < 0.4:
+        body += tracked("pre", 1)
+    call = [["sync", st("s"), 2, rnd.choice(["call", "value"])]]
+    if rnd.random() < 0.3:
+        call = [["with", ["actx", "around"], call]]
+    body.append(["try", call, "exc", [], []])
+    body += tracked("tracker", rnd.choice([1, 2, 3]))
+    if rnd.random() < 0.5:
+        body += tracked("tracker2", 1)
+    nodes[1]["body"] = body
+    # 4: a sibling with contexts of its own
+    nodes[4]["body"] = tracked("sib", rnd.choice([1, 2, 3]))
+    members = [["leaf", ["call", st("c"), 1]]]
+    if rnd.random() < 0.7:
+        members.append(["leaf", ["call", st("c"), 4]])
+    rnd.shuffle(members)
+    nodes[0]["body"] = [["yield", ["list", members]]]
+    if rnd.random() < 0.3:
+        nodes[0]["body"] = [["with", ["actx", "rootctx"], nodes[0]["body"]]]
+    for node in nodes:
+        node["style"] = rnd.choice(["asynq", "asynq", "method", "proxy"])
+    return {
+        "nodes": nodes,
+        "root": 0,
+        "shared": [],
+        "kinds": 2,
+        "faults": {},
+        "flush_faults": {},
+        "ctx_faults": {"lease": [rnd.choice(["resume", "resume", "resume", "pause"]), rnd.choice([2, 2, 3])]},
+        "defaults": {"sv0": "dflt-sv0", "sv1": "dflt-sv1", "at0": "dflt-at0"},
+    }
 
 
 def _shrunk(prog, how, pol, cs, oracle):
@@ -80,12 +154,25 @@ def run_unit(unit, progress):
         cs = tl.case_seed(unit["seed"], ID, i)
         na = i % 3 == 2
         prog = gen.generate(cs, PROFILE_N if na else PROFILE_A)
+        faulty = False
+        if i % 12 == 10:
+            prog = lease_program(random.Random(cs ^ 0x1EA5E))
+            faulty = True
+            inc("lease_programs")
+        elif i % 6 == 4:
+            names = [st[1][1] for node in prog["nodes"] for st in lang.iter_stmts(node["body"]) if st[0] == "with" and st[1][0] == "actx"]
+            frnd = random.Random(cs ^ 0xF06)
+            if len(names) >= 2:
+                prog["ctx_faults"] = {}
+                for nm in frnd.sample(names, min(len(names) - 1, frnd.randint(1, 2))):
+                    prog["ctx_faults"][nm] = [frnd.choice(["resume", "resume", "pause"]), frnd.randint(2, 3)]
+                faulty = True
         if prog.get("shared"):
             # a read under a task awaited by several parents has no unique sequential answer
             gen.strip_reads_under_shared(prog)
         rnd = random.Random(cs ^ 0xC06)
         try:
-            exp_rrt = ref.evaluate(prog)
+            exp_rrt = None if faulty else ref.evaluate(prog)
         except lang.HarnessFault:
             inc("ref_budget_skips")
             continue
@@ -94,7 +181,11 @@ def run_unit(unit, progress):
         multi = False
         for pi, pol in enumerate(pols):
             how = HOWS[(i + pi) % 4]
-            rt, out, exp, rrt = tl.execute(prog, how, pol, cs, MON_A, rrt_exp=exp_rrt)
+            rt, out, exp, rrt = tl.execute(prog, how, pol, cs, MON_F if faulty else MON_A, rrt_exp=exp_rrt)
+            if faulty:
+                inc("runs_with_failing_context_callbacks")
+                if any(ev[0] == "ctx_fault" for ev in rt.log):
+                    inc("runs_where_a_context_callback_raised")
             res["evaluations"] += 1
             tl.harvest(rt, c)
             pairs = {}
